@@ -506,6 +506,11 @@ def run_check(propmod, prop, tier, verif_seed, n_runs, variant='asan', jobs=None
             v2 = [v for v in propmod.check(small, r2) if v.cls == cls]
             if not v1 or not v2 or r1.hash != r2.hash:
                 sys.stderr.write('HARNESS: violation %s (seed index %d) does not replay deterministically\n' % (cls, i))
+                sys.stderr.write('  original report: %s\n' % json.dumps(main[i]['violations'])[:1500])
+                try:
+                    os.makedirs(os.path.join(ROOT, 'replays'), exist_ok=True)
+                    json.dump({'property': prop, 'plan': main[i]['plan'], 'violations': main[i]['violations'], 'note': 'did not replay'}, open(os.path.join(ROOT, 'replays', 'tmp-noreplay-%s-%d.json' % (prop, i)), 'w'), indent=1)
+                except Exception: pass
                 exit_code = max(exit_code, 2)
                 continue
             name = re.sub(r'[^A-Za-z0-9_.-]+', '_', cls)[:80]
